@@ -1,16 +1,41 @@
 /-
   C08 — Every resolution terminates in bounded time whatever upstream servers do.
-  FIRST-CLAIM version.  The recursive and forwarding machines are total Lean functions over an
-  ARBITRARY oracle (`Exchange → Attempt`): whatever upstream does — silence, lateness, garbage,
-  mismatches, circular referrals, alias loops — they return a value.  Proved here: the time
-  accounting of a single exchange.  Being proved: `outOfFuel` unreachable (the given fuel always
-  suffices), total elapsed ≤ 60 s on every path, provenance of every returned record.
+
+  The recursive and forwarding machines are total Lean functions over an ARBITRARY oracle
+  (`Exchange → Attempt`): whatever upstream does — silence, lateness, garbage, mismatches,
+  circular referrals, alias loops — they return a value (an answer or an error; there is no
+  panic constructor in their result type).  Proved here for every oracle, zones, cache, question:
+  * time: the virtual clock of a resolution never passes the 60 s budget, each logged transport
+    attempt accounts for at most 5 s, the clock and the log only grow, nothing is sent after the
+    deadline, a timed-out run yields `Timeout`, and an answer is only returned strictly before
+    the deadline (`C08_time_budget`, `C08_exchange_cost`, `C08_log_monotone`,
+    `C08_no_exchange_after_timeout`, `C08_timeout_result`, `C08_answer_before_deadline`);
+  * provenance: every record of an `ok` result (answer records and the SOA alike) occurs in the
+    oracle's reply to an exchange of the final log, or was returned by a local lookup
+    (`resolveLocal`: zones + cache) on a state the machine reaches — whose zones are the initial
+    ones and into whose cache only records of logged replies were inserted
+    (`C08_provenance`, `C08_provenance_forwarding`; `C08_provenance_generic` is the same for any
+    source predicate that `resolveLocal` is shown to respect);
+  * fuel (the model's stand-in for the unbounded async recursion of the Rust): NOT everything
+    wanted is true of the model — see the section "Fuel" at the end: the plain fuel-monotonicity
+    statement and the unconditional "REC_FUEL always suffices" are both FALSE for the model
+    (counterexamples given); what is proved is fuel-independence under the ghost condition
+    `okRec` ("no call of the call tree ran with fuel 0"): `C08_fuel_monotone`,
+    `C08_fuel_independent`, `C08_fuel_ok_no_outOfFuel`, and the iteration bound of the candidate
+    loop `C08_loop_iteration_bound`.
 -/
 import Resolved.Model.Resolver
+import Resolved.Proofs.ResolverMachineInv
+import Resolved.Proofs.ResolverMachineSrc
+import Resolved.Proofs.ResolverMachineFuel
+import Resolved.Proofs.ResolverMachineLoop
+import Resolved.Proofs.ResolverMachineExample
 
 namespace Resolved
 
 open Gen
+
+set_option autoImplicit false
 
 /-- One transport attempt costs at most its 5 s timeout and never pushes the clock past the 60 s
     budget; the exchange log grows by at most this one exchange. -/
@@ -18,19 +43,8 @@ theorem C08_attempt_time (oracle : Oracle) (run : Run) (ex : Exchange)
     (h : run.elapsedMs ≤ RESOLVE_TIMEOUT_MS) :
     (attempt oracle run ex).1.elapsedMs ≤ RESOLVE_TIMEOUT_MS ∧
     (attempt oracle run ex).1.elapsedMs ≤ run.elapsedMs + EXCHANGE_TIMEOUT_MS ∧
-    run.elapsedMs ≤ (attempt oracle run ex).1.elapsedMs := by
-  unfold attempt
-  split
-  · simp only; exact ⟨h, by omega, by omega⟩
-  · simp only
-    split
-    · simp only; refine ⟨Nat.le_refl _, ?_, h⟩
-      rename_i hge
-      have : min (oracle ex).delayMs EXCHANGE_TIMEOUT_MS ≤ EXCHANGE_TIMEOUT_MS := Nat.min_le_right _ _
-      omega
-    · rename_i hlt
-      have hm : min (oracle ex).delayMs EXCHANGE_TIMEOUT_MS ≤ EXCHANGE_TIMEOUT_MS := Nat.min_le_right _ _
-      split <;> simp only <;> refine ⟨by omega, by omega, by omega⟩
+    run.elapsedMs ≤ (attempt oracle run ex).1.elapsedMs :=
+  attempt_time oracle run ex h
 
 /-- A reply that arrives at or after the 5 s timeout is never used. -/
 theorem C08_late_reply_dropped (oracle : Oracle) (run : Run) (ex : Exchange)
@@ -41,9 +55,334 @@ theorem C08_late_reply_dropped (oracle : Oracle) (run : Run) (ex : Exchange)
   · simp only
     split
     · rfl
-    · rename_i h1 h2; simp [h]
+    · rfl
 
 /-- The budgets are the ones the source states (re-extracted on every run). -/
 theorem C08_budgets : RESOLVE_TIMEOUT_SECS = 60 ∧ EXCHANGE_TIMEOUT_SECS = 5 ∧ RECURSION_LIMIT = 32 := by decide
+
+theorem C08_budgets_ms : RESOLVE_TIMEOUT_MS = 60000 ∧ EXCHANGE_TIMEOUT_MS = 5000 := by decide
+
+/-- `query_nameserver` (UDP then TCP) started within the budget costs at most two exchange
+    time-outs and stays within the budget. -/
+theorem C08_query_time (oracle : Oracle) (run : Run) (addr : FieldVal) (port : Nat) (q : Question) (rd : Bool)
+    (h : run.elapsedMs ≤ RESOLVE_TIMEOUT_MS) :
+    (queryNameserver oracle run addr port q rd).1.elapsedMs ≤ RESOLVE_TIMEOUT_MS ∧
+    (queryNameserver oracle run addr port q rd).1.elapsedMs ≤ run.elapsedMs + 2 * EXCHANGE_TIMEOUT_MS ∧
+    run.elapsedMs ≤ (queryNameserver oracle run addr port q rd).1.elapsedMs :=
+  queryNameserver_time oracle run addr port q rd h
+
+/-- Every function of the recursive machine keeps the clock within the 60 s budget (any fuel, any
+    arguments, any oracle). -/
+theorem C08_machine_time_inv (cfg : RecCfg) (fuel : Nat) :
+    (∀ st q, RunOK st.run → RunOK (resolveRec cfg fuel st q).1.run) ∧
+    (∀ st q combined mc cands next locally, RunOK st.run →
+      RunOK (candidateLoop cfg fuel st q combined mc cands next locally).1.run) ∧
+    (∀ st rrs q, RunOK st.run → RunOK (resolveCombined cfg fuel st rrs q).1.run) ∧
+    (∀ st locally host types, RunOK st.run → RunOK (tryTypes cfg fuel st locally host types).1.run) := by
+  obtain ⟨h1, h2, h3, h4⟩ := machine_good cfg fuel
+  exact ⟨fun st q h => ((h1 st q).1.runOK h).1, fun st q c m cs n l h => ((h2 st q c m cs n l).1.runOK h).1,
+    fun st r q h => ((h3 st r q).1.runOK h).1, fun st l ho t h => ((h4 st l ho t).1.runOK h).1⟩
+
+/-- Each resolution finishes within its 60-second budget: the clock of the final run of a
+    recursive or a forwarding resolution is at most 60 000 ms, whatever upstream does. -/
+theorem C08_time_budget (cfg : RecCfg) (ctx : Ctx) (q : Question) :
+    (resolveRecursive cfg ctx q).1.run.elapsedMs ≤ 60000 :=
+  ((resolveRecursive_reach cfg ctx q).1.runOK RunOK.empty).1
+
+theorem C08_time_budget_forwarding (cfg : FwdCfg) (ctx : Ctx) (q : Question) :
+    (resolveForwarding cfg ctx q).1.run.elapsedMs ≤ 60000 :=
+  ((resolveForwarding_reach cfg ctx q).1.runOK RunOK.empty).1
+
+/-- Each upstream exchange takes at most 5 seconds per transport: the whole clock of a resolution
+    is bounded by 5 s per logged transport attempt. -/
+theorem C08_exchange_cost (cfg : RecCfg) (ctx : Ctx) (q : Question) :
+    (resolveRecursive cfg ctx q).1.run.elapsedMs ≤ 5000 * (resolveRecursive cfg ctx q).1.run.log.length := by
+  have h := (resolveRecursive_reach cfg ctx q).1.cost
+  simp only [CostLe, Run.empty, List.length_nil, Nat.mul_zero, Nat.add_zero, Nat.zero_add] at h
+  exact h
+
+theorem C08_exchange_cost_forwarding (cfg : FwdCfg) (ctx : Ctx) (q : Question) :
+    (resolveForwarding cfg ctx q).1.run.elapsedMs ≤ 5000 * (resolveForwarding cfg ctx q).1.run.log.length := by
+  have h := (resolveForwarding_reach cfg ctx q).1.cost
+  simp only [CostLe, Run.empty, List.length_nil, Nat.mul_zero, Nat.add_zero, Nat.zero_add] at h
+  exact h
+
+/-- If the final run is timed out the wrapper returns `Timeout` (and nothing else). -/
+theorem C08_timeout_result (cfg : RecCfg) (ctx : Ctx) (q : Question)
+    (h : (resolveRecursive cfg ctx q).1.run.timedOut = true) :
+    (resolveRecursive cfg ctx q).2 = .error .timeout := by
+  unfold resolveRecursive at h ⊢
+  simp only [] at h ⊢
+  split
+  · rfl
+  · rename_i hn; rw [if_neg hn] at h; exact absurd h hn
+
+theorem C08_timeout_result_forwarding (cfg : FwdCfg) (ctx : Ctx) (q : Question)
+    (h : (resolveForwarding cfg ctx q).1.run.timedOut = true) :
+    (resolveForwarding cfg ctx q).2 = .error .timeout := by
+  unfold resolveForwarding at h ⊢
+  simp only [] at h ⊢
+  split
+  · rfl
+  · rename_i hn; rw [if_neg hn] at h; exact absurd h hn
+
+/-- The run is timed out exactly when its clock stands at the 60 s mark; so any result other than
+    `Timeout` (in particular any answer) is produced strictly before the deadline. -/
+theorem C08_answer_before_deadline (cfg : RecCfg) (ctx : Ctx) (q : Question)
+    (h : (resolveRecursive cfg ctx q).2 ≠ .error .timeout) :
+    (resolveRecursive cfg ctx q).1.run.elapsedMs < 60000 := by
+  have hd := (resolveRecursive_reach cfg ctx q).1.deadline Deadline.empty
+  cases ht : (resolveRecursive cfg ctx q).1.run.timedOut with
+  | true => exact absurd (C08_timeout_result cfg ctx q ht) h
+  | false => exact hd.2 ht
+
+theorem C08_answer_before_deadline_forwarding (cfg : FwdCfg) (ctx : Ctx) (q : Question)
+    (h : (resolveForwarding cfg ctx q).2 ≠ .error .timeout) :
+    (resolveForwarding cfg ctx q).1.run.elapsedMs < 60000 := by
+  have hd := (resolveForwarding_reach cfg ctx q).1.deadline Deadline.empty
+  cases ht : (resolveForwarding cfg ctx q).1.run.timedOut with
+  | true => exact absurd (C08_timeout_result_forwarding cfg ctx q ht) h
+  | false => exact hd.2 ht
+
+/-- The log only grows (the old log is a prefix of the new one) and the clock only advances, in
+    every function of the machine. -/
+theorem C08_log_monotone (cfg : RecCfg) (fuel : Nat) :
+    (∀ st q, st.run.log <+: (resolveRec cfg fuel st q).1.run.log ∧
+      (RunOK st.run → st.run.elapsedMs ≤ (resolveRec cfg fuel st q).1.run.elapsedMs)) ∧
+    (∀ st q combined mc cands next locally,
+      st.run.log <+: (candidateLoop cfg fuel st q combined mc cands next locally).1.run.log ∧
+      (RunOK st.run →
+        st.run.elapsedMs ≤ (candidateLoop cfg fuel st q combined mc cands next locally).1.run.elapsedMs)) ∧
+    (∀ st rrs q, st.run.log <+: (resolveCombined cfg fuel st rrs q).1.run.log ∧
+      (RunOK st.run → st.run.elapsedMs ≤ (resolveCombined cfg fuel st rrs q).1.run.elapsedMs)) ∧
+    (∀ st locally host types, st.run.log <+: (tryTypes cfg fuel st locally host types).1.run.log ∧
+      (RunOK st.run → st.run.elapsedMs ≤ (tryTypes cfg fuel st locally host types).1.run.elapsedMs)) := by
+  obtain ⟨h1, h2, h3, h4⟩ := machine_good cfg fuel
+  exact ⟨fun st q => ⟨(h1 st q).1.log_prefix, fun h => ((h1 st q).1.runOK h).2⟩,
+    fun st q c m cs n l => ⟨(h2 st q c m cs n l).1.log_prefix, fun h => ((h2 st q c m cs n l).1.runOK h).2⟩,
+    fun st r q => ⟨(h3 st r q).1.log_prefix, fun h => ((h3 st r q).1.runOK h).2⟩,
+    fun st l ho t => ⟨(h4 st l ho t).1.log_prefix, fun h => ((h4 st l ho t).1.runOK h).2⟩⟩
+
+theorem C08_log_monotone_forwarding (cfg : FwdCfg) (fuel : Nat) (st : St) (q : Question) :
+    st.run.log <+: (resolveFwd cfg fuel st q).1.run.log ∧
+    (RunOK st.run → st.run.elapsedMs ≤ (resolveFwd cfg fuel st q).1.run.elapsedMs) :=
+  ⟨(resolveFwd_good cfg fuel st q).1.log_prefix, fun h => ((resolveFwd_good cfg fuel st q).1.runOK h).2⟩
+
+/-- Once the 60 s deadline has passed no function of the machine sends anything any more: the run
+    (log and clock) comes back unchanged. -/
+theorem C08_no_exchange_after_timeout (cfg : RecCfg) (fuel : Nat) (st : St) (q : Question)
+    (h : st.run.timedOut = true) :
+    (resolveRec cfg fuel st q).1.run = st.run ∧
+    (∀ combined mc cands next locally,
+      (candidateLoop cfg fuel st q combined mc cands next locally).1.run = st.run) ∧
+    (∀ rrs, (resolveCombined cfg fuel st rrs q).1.run = st.run) ∧
+    (∀ locally host types, (tryTypes cfg fuel st locally host types).1.run = st.run) := by
+  obtain ⟨h1, h2, h3, h4⟩ := machine_good cfg fuel
+  exact ⟨(h1 st q).1.timedOut_frozen h, fun c m cs n l => (h2 st q c m cs n l).1.timedOut_frozen h,
+    fun r => (h3 st r q).1.timedOut_frozen h, fun l ho t => (h4 st l ho t).1.timedOut_frozen h⟩
+
+/-- The machines never touch the zones or the cache clock. -/
+theorem C08_zones_untouched (cfg : RecCfg) (ctx : Ctx) (q : Question) :
+    (resolveRecursive cfg ctx q).1.ctx.zones = ctx.zones ∧ (resolveRecursive cfg ctx q).1.ctx.now = ctx.now :=
+  (resolveRecursive_reach cfg ctx q).1.ctx_same
+
+/-- Provenance, generic form: let `P log r` ("`r` is accounted for by the exchanges of `log`") be
+    monotone in the log, hold of every record of a logged reply, and hold of every record
+    `resolveLocal` returns on a reachable state.  Then it holds of every record — answer and SOA —
+    of an `ok` result of the recursive resolver, at the final log. -/
+theorem C08_provenance_generic (cfg : RecCfg) (ctx : Ctx) (q : Question) (P : List Exchange → RR → Prop)
+    (hP : SrcHyp cfg.net ⟨ctx, Run.empty⟩ P) (res : ResolvedRecord)
+    (h : (resolveRecursive cfg ctx q).2 = .ok res) :
+    ∀ r ∈ res.rrs ++ res.soaRR.toList, P (resolveRecursive cfg ctx q).1.run.log r := by
+  have hm := (machine_src cfg ⟨ctx, Run.empty⟩ P hP REC_FUEL).1 ⟨ctx, Run.empty⟩ q (Reach.refl _)
+  unfold resolveRecursive at h ⊢
+  simp only [] at h ⊢
+  split at h
+  · cases h
+  · rename_i hn
+    rw [if_neg hn]
+    exact hm res h
+
+theorem C08_provenance_generic_forwarding (cfg : FwdCfg) (ctx : Ctx) (q : Question)
+    (P : List Exchange → RR → Prop) (hP : SrcHyp cfg.net ⟨ctx, Run.empty⟩ P) (res : ResolvedRecord)
+    (h : (resolveForwarding cfg ctx q).2 = .ok res) :
+    ∀ r ∈ res.rrs ++ res.soaRR.toList, P (resolveForwarding cfg ctx q).1.run.log r := by
+  have hm := fwd_src cfg ⟨ctx, Run.empty⟩ P hP REC_FUEL ⟨ctx, Run.empty⟩ q (Reach.refl _)
+  unfold resolveForwarding at h ⊢
+  simp only [] at h ⊢
+  split at h
+  · cases h
+  · rename_i hn
+    rw [if_neg hn]
+    exact hm res h
+
+/-- The resolver never returns a record that neither an upstream reply nor local data supplied:
+    every record of an `ok` result either occurs in the reply the oracle gave to an exchange of
+    the final log (`FromLog`), or was returned by a local lookup on a reachable state
+    (`LocalSrc`; the TTL of a cache-served record is the one the cache lookup computed). -/
+theorem C08_provenance (cfg : RecCfg) (ctx : Ctx) (q : Question) (res : ResolvedRecord)
+    (h : (resolveRecursive cfg ctx q).2 = .ok res) :
+    ∀ r ∈ res.rrs ++ res.soaRR.toList,
+      FromLog cfg.oracle (resolveRecursive cfg ctx q).1.run.log r ∨
+      LocalSrc cfg.net ⟨ctx, Run.empty⟩ (resolveRecursive cfg ctx q).1.run.log r :=
+  C08_provenance_generic cfg ctx q (Src cfg.net ⟨ctx, Run.empty⟩) (src_hyp _ _) res h
+
+theorem C08_provenance_forwarding (cfg : FwdCfg) (ctx : Ctx) (q : Question) (res : ResolvedRecord)
+    (h : (resolveForwarding cfg ctx q).2 = .ok res) :
+    ∀ r ∈ res.rrs ++ res.soaRR.toList,
+      FromLog cfg.oracle (resolveForwarding cfg ctx q).1.run.log r ∨
+      LocalSrc cfg.net ⟨ctx, Run.empty⟩ (resolveForwarding cfg ctx q).1.run.log r :=
+  C08_provenance_generic_forwarding cfg ctx q (Src cfg.net ⟨ctx, Run.empty⟩) (src_hyp _ _) res h
+
+/-- What enters the cache during a resolution: only records of replies to logged exchanges (the
+    `cache` step of `Reach` carries exactly this guard), so the "local data" of `LocalSrc` is the
+    initial zones and cache plus logged upstream records. -/
+theorem C08_cache_inserts_from_replies (cfg : RecCfg) (ctx : Ctx) (q : Question) :
+    Reach cfg.net ⟨ctx, Run.empty⟩ (resolveRecursive cfg ctx q).1 :=
+  (resolveRecursive_reach cfg ctx q).1
+
+/-! ### Non-vacuity -/
+
+/-- an upstream that never answers: two attempts (UDP, TCP) of 5 s each, then a dead end — an
+    error, not a hang, after 10 s of virtual time. -/
+example : (resolveRecursive exCfgSilent exCtx exQ).1.run.elapsedMs = 10000 ∧
+    (resolveRecursive exCfgSilent exCtx exQ).1.run.log.length = 2 ∧
+    (resolveRecursive exCfgSilent exCtx exQ).2 = .error (.deadEnd exQ) := by decide +kernel
+
+/-- an upstream that answers: the answer comes back after 20 ms. -/
+example : (resolveRecursive exCfg exCtx exQ).2 = .ok (.nonAuthoritative [exAnswer] none) ∧
+    (resolveRecursive exCfg exCtx exQ).1.run.elapsedMs = 20 := by decide +kernel
+
+/-- provenance, concretely: the answer record of the example run occurs in the oracle's reply to
+    the one exchange of its log. -/
+example : FromLog exCfg.oracle (resolveRecursive exCfg exCtx exQ).1.run.log exAnswer := by
+  have h : (resolveRecursive exCfg exCtx exQ).1.run.log =
+      [{ addr := .a 16909060, port := 53, tcp := false, question := exQ, recursionDesired := false }] := by
+    decide +kernel
+  rw [h]
+  exact ⟨_, List.mem_singleton.mpr rfl, _, rfl, by simp [Message.allRrs, exReply]⟩
+
+/-! ## Fuel
+
+  The Rust recursion is unbounded; the model recurses on a fuel (`REC_FUEL = 100000` in the
+  wrappers) and returns the model-only error `outOfFuel` at fuel 0.  Two facts about the model as
+  it stands (both model artefacts, not Rust behaviour):
+
+  1. `tryTypes` (`resolve_hostname_to_ip`) treats every error of the nested `resolveRec` alike, so
+     a fuel exhaustion inside a name-server address lookup is MASKED: the result is then a
+     `deadEnd`, not `outOfFuel`.  Hence "a run that does not end in `outOfFuel` gives the same
+     result with more fuel" is false — counterexample below (`exCfgRef`: fuel 5 ↦ `deadEnd`,
+     fuel 8 ↦ an answer).
+  2. Every iteration of the candidate loop costs one unit of fuel while virtual time need not
+     advance (an oracle may answer in 0 ms), and the number of iterations grows with
+     (labels of the question) × (name servers per referral): `outOfFuel` IS reachable with
+     `REC_FUEL` (e.g. a 101-label question, 100 referrals of 1000 hosts each with glue for the
+     host tried last; `bigCfg 100 1000` — scaled-down instance proved below).
+
+  What holds: the ghost condition `okRec cfg n st q` (defined in `Proofs/ResolverMachineFuel` by
+  mirroring the call tree: no call was made with fuel 0; it is executable, so it can be evaluated
+  on every generated case) makes the fuel unobservable. -/
+
+/-- Counterexample to plain fuel monotonicity: with fuel 5 the run ends in `deadEnd` (not in
+    `outOfFuel`: the exhaustion happened inside a masked address lookup), with fuel 8 it answers. -/
+example : (resolveRec exCfgRef 5 ⟨exCtx, Run.empty⟩ exQ).2 = .error (.deadEnd exQ) ∧
+    (resolveRec exCfgRef 8 ⟨exCtx, Run.empty⟩ exQ).2 = .ok (.nonAuthoritative [exAnswer] none) ∧
+    okRec exCfgRef 5 ⟨exCtx, Run.empty⟩ exQ = false ∧ okRec exCfgRef 8 ⟨exCtx, Run.empty⟩ exQ = true := by
+  decide +kernel
+
+/-- Scaled-down instance of the fuel-exhaustion scenario: 3 referral levels × 4 hosts; fuel 14 is
+    exhausted (`outOfFuel`), fuel 16 answers.  The same universe with 100 levels × 1000 hosts
+    exhausts `REC_FUEL`. -/
+example : (resolveRec (bigCfg 3 4) 14 ⟨bigCtx, Run.empty⟩ (bigQ 3)).2 = .error .outOfFuel ∧
+    okRec (bigCfg 3 4) 16 ⟨bigCtx, Run.empty⟩ (bigQ 3) = true := by
+  decide +kernel
+
+/-- FALSE for the model (see 2. above; kept as a statement, not a theorem). -/
+def C08_fuel_suffices_statement : Prop :=
+  ∀ (cfg : RecCfg) (ctx : Ctx) (q : Question), (resolveRecursive cfg ctx q).2 ≠ .error .outOfFuel
+
+/-- FALSE for the model (see 1. above; kept as a statement, not a theorem). -/
+def C08_fuel_monotone_naive_statement : Prop :=
+  ∀ (cfg : RecCfg) (n m : Nat) (st : St) (q : Question), n ≤ m →
+    (resolveRec cfg n st q).2 ≠ .error .outOfFuel → resolveRec cfg m st q = resolveRec cfg n st q
+
+/-- the naive monotonicity statement is refuted by the counterexample above. -/
+theorem C08_fuel_monotone_naive_false : ¬ C08_fuel_monotone_naive_statement := by
+  intro h
+  have h1 := h exCfgRef 5 8 ⟨exCtx, Run.empty⟩ exQ (by decide) (by decide +kernel)
+  have h2 : (resolveRec exCfgRef 8 ⟨exCtx, Run.empty⟩ exQ).2 ≠ (resolveRec exCfgRef 5 ⟨exCtx, Run.empty⟩ exQ).2 := by
+    decide +kernel
+  exact h2 (by rw [h1])
+
+/-- Fuel monotonicity (corrected): if no call of the call tree of `resolveRec cfg n st q` ran out
+    of fuel, then any larger fuel gives exactly the same state and result (and again no
+    exhaustion) — the fuel is unobservable once it suffices. -/
+theorem C08_fuel_monotone (cfg : RecCfg) (n m : Nat) (hm : n ≤ m) (st : St) (q : Question)
+    (h : okRec cfg n st q = true) :
+    resolveRec cfg m st q = resolveRec cfg n st q ∧ okRec cfg m st q = true :=
+  fuel_stable_le cfg n m hm st q h
+
+/-- One step of it, for all four functions of the mutual block. -/
+theorem C08_fuel_stable (cfg : RecCfg) (n : Nat) : FuelStable cfg n := fuel_stable cfg n
+
+/-- Without exhaustion in the call tree the result is not `outOfFuel` (so `outOfFuel` as a
+    result always witnesses an exhaustion; the converse fails because of the masking). -/
+theorem C08_fuel_ok_no_outOfFuel (cfg : RecCfg) (n : Nat) (st : St) (q : Question)
+    (h : okRec cfg n st q = true) : (resolveRec cfg n st q).2 ≠ .error .outOfFuel :=
+  (ok_no_outOfFuel cfg n).1 st q h
+
+/-- For a whole resolution: when `REC_FUEL` suffices in the sense of `okRec`, the wrapper's value
+    is the value for every larger fuel, and it is not `outOfFuel`. -/
+theorem C08_fuel_independent (cfg : RecCfg) (ctx : Ctx) (q : Question)
+    (h : okRec cfg REC_FUEL ⟨ctx, Run.empty⟩ q = true) :
+    (∀ m, REC_FUEL ≤ m → resolveRec cfg m ⟨ctx, Run.empty⟩ q = resolveRec cfg REC_FUEL ⟨ctx, Run.empty⟩ q) ∧
+    (resolveRecursive cfg ctx q).2 ≠ .error .outOfFuel := by
+  refine ⟨fun m hm => (fuel_stable_le cfg REC_FUEL m hm _ q h).1, ?_⟩
+  have hno := (ok_no_outOfFuel cfg REC_FUEL).1 _ q h
+  unfold resolveRecursive
+  simp only []
+  split
+  · intro hh; cases hh
+  · exact hno
+
+/-- Iteration bound of the candidate loop: with at most `H` hosts per referral
+    (`(cfg.hostOrder hs).length ≤ H`), `k` consecutive iterations starting from loop variables `a`
+    whose delegation is at most as deep as the question name satisfy
+    `k ≤ (labels − a.mc)·(2H+2) + width a`: the loop itself needs at most that much fuel. -/
+theorem C08_loop_iteration_bound (cfg : RecCfg) (q : Question) (a c : LoopArgs) (k H : Nat)
+    (hH : ∀ hs, (cfg.hostOrder hs).length ≤ H) (h : LoopChain cfg q a k c) (hmc : a.mc ≤ q.name.labels.length) :
+    k ≤ (q.name.labels.length - a.mc) * (2 * H + 2) + a.width := by
+  have := h.length_le H hH hmc
+  unfold LoopArgs.measure at this
+  omega
+
+/-- Partial "fuel suffices": with more fuel than that bound the candidate loop never stops for
+    lack of fuel of its own — its value is that of an iteration that ends the loop (time-out, dead
+    end, answer, or hand-over to `resolveCombined` for an alias). -/
+theorem C08_loop_fuel_suffices (cfg : RecCfg) (q : Question) (combined : List RR) (n H : Nat) (a : LoopArgs)
+    (hH : ∀ hs, (cfg.hostOrder hs).length ≤ H) (hmc : a.mc ≤ q.name.labels.length)
+    (hn : (q.name.labels.length - a.mc) * (2 * H + 2) + a.width < n) :
+    ∃ (k m : Nat) (a' : LoopArgs), LoopChain cfg q a k a' ∧ n - k = m + 1 ∧
+      candidateLoop cfg n a.st q combined a.mc a.cands a.next a.locally =
+        candidateLoop cfg (m + 1) a'.st q combined a'.mc a'.cands a'.next a'.locally ∧
+      LoopEnds cfg m q (candidateLoop cfg (m + 1) a'.st q combined a'.mc a'.cands a'.next a'.locally) :=
+  candidateLoop_ends cfg q combined n H a hH hmc hn
+
+/-- the hypothesis on `hostOrder` is satisfiable (e.g. a host order that keeps at most 13 hosts). -/
+example : ∀ hs : List Name, (({ exCfg with hostOrder := fun l => l.take 13 } : RecCfg).hostOrder hs).length ≤ 13 := by
+  intro hs; simp only [List.length_take]; omega
+
+/-! What is missing for a conditional "fuel suffices" theorem (`okRec cfg F ⟨ctx, Run.empty⟩ q` for
+    an explicit `F`): nesting of `resolveRec` is bounded by the question stack (every nested call
+    sees a strictly longer stack — `C10_stack_invariant` — and refuses at `RECURSION_LIMIT`), and
+    each level costs at most the loop bound `C08_loop_iteration_bound` plus a constant, so
+    `F = (RECURSION_LIMIT + 1) · ((L + 1)(2H + 2) + c)` works PROVIDED every question met during
+    the resolution has at most `L` labels and every name-server set (local or from a referral)
+    at most `H` hosts.  Those are global size invariants on zones, cache contents and oracle
+    replies (names ≤ 255 octets, messages ≤ 64 KiB) that the model does not carry (`Name`,
+    `Message` are unconstrained structures there); and with realistic sizes (L ≈ 128, H ≈ 4000)
+    that `F` is far above `REC_FUEL = 100000`, so the wrapper's fuel would have to be raised (or
+    the loop given its own structural measure) before such a theorem could be about
+    `resolveRecursive` itself. -/
 
 end Resolved
